@@ -70,7 +70,17 @@ def check(rep, tier, seed):
         if back != want:
             rep.fail(kind="property-oracle", cls="npy-roundtrip", case=c[:300], observed=back[:300], expected=want[:300],
                      detail="reading back the written npy file does not return bit-identical shape and values")
-    compare_cases(rep, "text-writer", cases_t, nontrivial=lambda c, m: True, classify=lambda c, m, i: "text-writer", spec=True)
+    mo_t, outs_t = compare_cases(rep, "text-writer", cases_t, nontrivial=lambda c, m: True, classify=lambda c, m, i: "text-writer", spec=True)
+    # the auto-detecting reader (the real read::Builder path: file -> read_to_end -> detect -> parse -> checks) on everything
+    # the writers produced, npy and text, every shape incl. axes of length 1: must accept, and agree with the model
+    produced = [o for c, o in written] + [o for o in outs_t[False] if o and all(ch in "0123456789abcdef" for ch in o)]
+    rd_cases = ["read %s" % o for o in produced]
+    mo_r, outs_r = compare_cases(rep, "reader-on-own-output", rd_cases, nontrivial=lambda c, m: m.startswith("OK"),
+                                 classify=lambda c, m, i: "reads-what-it-writes:library", spec=True)
+    for c, o in zip(dict.fromkeys(rd_cases), outs_r[False]):
+        if not o.startswith("OK"):
+            rep.fail(kind="property-oracle", cls="reads-what-it-writes:library", case=c[:200], stdin_hex=c.split()[1][:4000], observed=o[:100],
+                     expected="OK <shape> <values>", detail="a file written by the tool is rejected by the tool's auto-detecting reader")
 
     # stand-ins for std formatting / parsing vs Rust
     n = 20000 if tier == "quick" else 200000
@@ -161,6 +171,12 @@ def check(rep, tier, seed):
                         jobs.append((consumer + [path], b"")); labels.append("%s -> %s (%s, file)" % (producer, consumer[0], fmtname))
                     else:
                         jobs.append((consumer, data)); labels.append("%s -> %s (%s, pipe)" % (producer, consumer[0], fmtname))
+    # spectra with axes of length 1 and 2, produced by the tool itself (projection to 0 / 1 chromosomes)
+    for to in ("1,3", "5,1", "1,1", "2,1"):
+        for fmtname in ("text", "npy"):
+            small = run_cli_many([(["view", "--project-shape", to, "-O", fmtname], base)])[0][1]
+            for consumer in (["view"], ["fold", "--fill", "zero"], ["stat", "-s", "sum"]):
+                jobs.append((consumer, small)); labels.append("view --project-shape %s -> %s (%s, pipe)" % (to, consumer[0], fmtname))
     jobs.append((["view"], base)); labels.append("create -> view (text, pipe)")
     jobs.append((["stat", "-s", "sum"], base)); labels.append("create -> stat (text, pipe)")
     for lab, job, (rc, so, se) in zip(labels, jobs, run_cli_many(jobs)):
